@@ -12,13 +12,20 @@ import TextxVerif.Gen.Regexes
 `compileLit`     `visit_str_match`: `RegExMatch(lit\b)` for keyword-like literals
                  under autokwd, `StrMatch(lit)` otherwise.
 `tokMatch`       Arpeggio's `StrMatch._parse` / `RegExMatch._parse` at a position:
-                 new position and the terminal's value (the grammar literal for string
+                 new position, the terminal's value (the grammar literal for string
                  matches and — after the repair of the ignore_case deviation — for
-                 keyword matches; the matched text for other regex tokens).
-`PE`, `parse`    a small PEG (sequence, ordered choice, `*`, `?`, `!`, literals, ID, INT)
-                 run the way Arpeggio runs it: whitespace is skipped before every
-                 terminal, failures restore the position.  Only what C21 needs:
-                 the parser is a function of the token matchers.
+                 keyword matches; the matched text for other regex tokens) **and** the
+                 value `process_node` (`textx/model.py`, Terminal branch) hands to the
+                 object graph for that terminal: group 1 for a regex match with exactly
+                 one capturing group under `use_regexp_group`, `node.value` otherwise.
+`Opts`           the metamodel options that are not about literals: the whitespace set
+                 (`ws`; empty for `skipws=False`) and `use_regexp_group`.
+`PE`, `parse`    a small PEG (sequence, ordered choice, `*`, `?`, `!`, literals, ID, INT,
+                 user regex matches `/pre/` and `/pre(body)/`; `+`, `&`, separator
+                 repetitions as derived forms) run the way Arpeggio runs it: the
+                 whitespace set is skipped before every terminal, failures restore the
+                 position.  Only what C21 needs: the parser is a function of the token
+                 matchers.
 Model file: core Lean only.
 -/
 namespace Kwd
@@ -43,10 +50,31 @@ def kwRe (icase : Bool) : List Char → R
   | [] => .wordB false
   | c :: cs => .seq (litChr icase c) (kwRe icase cs)
 
+/-- the other metamodel options the property quantifies over: `ws` = the characters skipped before
+every terminal (`ws` parameter; `[]` for `skipws=False`), `useGroup` = `use_regexp_group` -/
+structure Opts where
+  ws : List Char
+  useGroup : Bool
+deriving DecidableEq, Repr
+
+/-- Arpeggio's default whitespace set `'\t\n\r '` -/
+def defaultWs : List Char := ['\t', '\n', '\r', ' ']
+
 inductive Tok
   | str (l : List Char) (icase : Bool)          -- StrMatch(to_match, ignore_case)
-  | re (r : R) (value : Option (List Char))     -- RegExMatch; `value` = fixed terminal value, if any
+  | re (r : R) (value : Option (List Char))     -- RegExMatch without capturing group (`regex.groups = 0`);
+                                                -- `value` = fixed terminal value, if any (KeywordMatch)
+  | reG (pre body : R)                          -- RegExMatch of `pre(body)`: exactly one capturing group
 deriving DecidableEq, Repr
+
+/-- `regex.groups` of the compiled match (string matches have no regex) -/
+def Tok.groups : Tok → Nat
+  | .str .. => 0
+  | .re .. => 0
+  | .reG .. => 1
+
+/-- value of the terminal (`Terminal.value`) and the value `process_node` passes on to the object graph -/
+abbrev TV := List Char × List Char
 
 /-- `visit_str_match` -/
 def compileLit (cc : CharClasses) (cfg : Cfg) (l : List Char) : Tok :=
@@ -57,16 +85,29 @@ def compileLit (cc : CharClasses) (cfg : Cfg) (l : List Char) : Tok :=
 def litMatch (cc : CharClasses) (icase : Bool) (l s : List Char) : Bool :=
   if icase then (s.take l.length).map cc.fold == l.map cc.fold else s.take l.length == l
 
-/-- a token at a position: position after it and the terminal's value.  Empty regex
-matches produce no terminal (`if matched:`) and count as no token. -/
-def tokMatch (cc : CharClasses) : Tok → St → Option (St × List Char)
+/-- all matches of `pre(body)`, best first: position after `pre` (start of the group) and after `body` -/
+def mG (cc : CharClasses) (pre body : R) (s : St) : List (St × St) :=
+  (m cc pre s).flatMap fun t => (m cc body t).map fun u => (t, u)
+
+/-- a token at a position: position after it, the terminal's value and the value for the object
+graph (`ug` = `use_regexp_group`).  Empty regex matches produce no terminal (`if matched:`) and count
+as no token.  `process_node`: `if use_regexp_group and isinstance(rule, RegExMatch) and
+regex.groups == 1: extra_info.group(1) else node.value`. -/
+def tokMatch (cc : CharClasses) (ug : Bool) : Tok → St → Option (St × TV)
   | .str l ic, s =>
-      if litMatch cc ic l s.2 then some ((lastOr s.1 (s.2.take l.length), s.2.drop l.length), l) else none
+      if litMatch cc ic l s.2 then some ((lastOr s.1 (s.2.take l.length), s.2.drop l.length), (l, l)) else none
   | .re r v, s =>
       match pyMatchSt cc r s with
       | some t =>
           let n := s.2.length - t.2.length
-          if n = 0 then none else some (t, v.getD (s.2.take n))
+          if n = 0 then none else some (t, (v.getD (s.2.take n), v.getD (s.2.take n)))
+      | none => none
+  | .reG pre body, s =>
+      match (mG cc pre body s).head? with
+      | some (t, u) =>
+          let n := s.2.length - u.2.length
+          if n = 0 then none
+          else some (u, (s.2.take n, if ug then t.2.take (t.2.length - u.2.length) else s.2.take n))
       | none => none
 
 /-! ## a small PEG over such tokens -/
@@ -80,20 +121,42 @@ inductive PE
   | opt (a : PE)
   | notP (a : PE)
   | empty
+  | rx (pre : R) (body : Option R)     -- `/pre/` or `/pre(body)/`
+  | sepPlus (a sep : PE)               -- `a+[sep]` (`OneOrMore` with a separator)
 deriving DecidableEq, Repr
+
+/-- `a+` (`OneOrMore`; also what `attr+=a` compiles to) -/
+def PE.plus (a : PE) : PE := .seq a (.star a)
+/-- `&a` (`And`): succeeds without consuming iff `a` matches -/
+def PE.andP (a : PE) : PE := .notP (.notP a)
+/-- `a*[sep]` (`ZeroOrMore` with a separator: no separator before the first element) -/
+def PE.sepStar (a sep : PE) : PE := .opt (.sepPlus a sep)
+
+/-- the token of a user regex match -/
+def rxTok (pre : R) : Option R → Tok
+  | none => .re pre none
+  | some b => .reG pre b
 
 def PE.lits : PE → List (List Char)
   | .lit l => [l]
   | .seq a b | .choice a b => a.lits ++ b.lits
   | .star a | .opt a | .notP a => a.lits
+  | .sepPlus a sep => a.lits ++ sep.lits
   | _ => []
 
-/-- a matched terminal: number of characters left when it started, and its value -/
-abbrev Tk := Nat × List Char
+/-- a matched terminal: number of characters left when it started, and its values -/
+abbrev Tk := Nat × TV
+
+/-- `while pos < length and input[pos] in ws: pos += 1` -/
+def skipByAux (ws : List Char) : Option Char → List Char → St
+  | p, c :: cs => if ws.contains c then skipByAux ws (some c) cs else (p, c :: cs)
+  | p, [] => (p, [])
+
+def skipBy (ws : List Char) (s : St) : St := skipByAux ws s.1 s.2
 
 /-- `Match.parse`: skip whitespace, then match -/
-def term (tm : St → Option (St × List Char)) (s : St) : Option (St × List Tk) :=
-  let s' := skipWs s
+def term (ws : List Char) (tm : St → Option (St × TV)) (s : St) : Option (St × List Tk) :=
+  let s' := skipBy ws s
   match tm s' with
   | some (t, v) => some (t, [(s'.2.length, v)])
   | none => none
@@ -110,42 +173,68 @@ def starP (f : St → Option (St × List Tk)) : Nat → St → St × List Tk
           else (s, [])
       | none => (s, [])
 
+/-- the rounds `sep a` of a repetition with separator, after the first element.  Arpeggio appends the
+separator's result *before* it tries the element: when the element then fails, the position goes back
+to before the separator but the separator's terminals stay in the parse tree (the object graph skips
+separator nodes, so nothing of it reaches the model). -/
+def sepLoop (f sep : St → Option (St × List Tk)) : Nat → St → St × List Tk
+  | 0, s => (s, [])
+  | n+1, s =>
+      match sep s with
+      | some (t, ts) =>
+          match f t with
+          | some (u, tu) =>
+              if u.2.length < s.2.length then
+                let (w, more) := sepLoop f sep n u
+                (w, ts ++ tu ++ more)
+              else (s, [])
+          | none => (s, ts)
+      | none => (s, [])
+
 /-- the parser as a function of the token matcher for literals -/
-def parse (cc : CharClasses) (lit : List Char → St → Option (St × List Char)) : PE → St → Option (St × List Tk)
-  | .lit l, s => term (lit l) s
-  | .ident, s => term (tokMatch cc (.re Gen.Regexes.ID none)) s
-  | .int, s => term (tokMatch cc (.re Gen.Regexes.INT none)) s
+def parse (cc : CharClasses) (o : Opts) (lit : List Char → St → Option (St × TV)) : PE → St → Option (St × List Tk)
+  | .lit l, s => term o.ws (lit l) s
+  | .ident, s => term o.ws (tokMatch cc o.useGroup (.re Gen.Regexes.ID none)) s
+  | .int, s => term o.ws (tokMatch cc o.useGroup (.re Gen.Regexes.INT none)) s
+  | .rx pre body, s => term o.ws (tokMatch cc o.useGroup (rxTok pre body)) s
   | .seq a b, s =>
-      match parse cc lit a s with
+      match parse cc o lit a s with
       | some (t, ta) =>
-          match parse cc lit b t with
+          match parse cc o lit b t with
           | some (u, tb) => some (u, ta ++ tb)
           | none => none
       | none => none
   | .choice a b, s =>
-      match parse cc lit a s with
+      match parse cc o lit a s with
       | some r => some r
-      | none => parse cc lit b s
-  | .star a, s => some (starP (parse cc lit a) s.2.length s)
+      | none => parse cc o lit b s
+  | .star a, s => some (starP (parse cc o lit a) s.2.length s)
   | .opt a, s =>
-      match parse cc lit a s with
+      match parse cc o lit a s with
       | some r => some r
       | none => some (s, [])
   | .notP a, s =>
-      match parse cc lit a s with
+      match parse cc o lit a s with
       | some _ => none
       | none => some (s, [])
   | .empty, s => some (s, [])
+  | .sepPlus a sep, s =>
+      match parse cc o lit a s with
+      | some (t, ta) =>
+          let (u, more) := sepLoop (parse cc o lit a) (parse cc o lit sep) t.2.length t
+          some (u, ta ++ more)
+      | none => none
 
 /-- the literal matcher a metamodel configuration compiles to -/
-def litTok (cc : CharClasses) (cfg : Cfg) (l : List Char) : St → Option (St × List Char) :=
-  tokMatch cc (compileLit cc cfg l)
+def litTok (cc : CharClasses) (cfg : Cfg) (ug : Bool) (l : List Char) : St → Option (St × TV) :=
+  tokMatch cc ug (compileLit cc cfg l)
 
-/-- `Model: g EOF` on a text: the terminals (start offset, value), or none on a syntax error -/
-def parseText (cc : CharClasses) (cfg : Cfg) (g : PE) (text : List Char) : Option (List (Nat × List Char)) :=
-  match parse cc (litTok cc cfg) g (none, text) with
+/-- `Model: g EOF` on a text: the terminals (start offset, value, value for the object graph), or none
+on a syntax error -/
+def parseText (cc : CharClasses) (cfg : Cfg) (o : Opts) (g : PE) (text : List Char) : Option (List (Nat × TV)) :=
+  match parse cc o (litTok cc cfg o.useGroup) g (none, text) with
   | some (t, toks) =>
-      if (skipWs t).2.isEmpty then some (toks.map fun (left, v) => (text.length - left, v)) else none
+      if (skipBy o.ws t).2.isEmpty then some (toks.map fun (left, v) => (text.length - left, v)) else none
   | none => none
 
 end Kwd
